@@ -349,6 +349,41 @@ def impl_send(L, sup, req_encs, chunk, xml):
     return canon_msg(h, body), (h, body)
 
 
+def impl_send_async(L, sup, req_encs, chunk, xml):
+    """the same for SoapClientAsync.async_post_message_to (aiohttp session replaced by a recorder)"""
+    import asyncio
+
+    from sdc11073.pysoap import soapclient_async
+    sent = {}
+
+    class Resp:
+        status, reason = 200, 'OK'
+
+        async def __aenter__(self):
+            return self
+
+        async def __aexit__(self, *a):
+            return False
+
+        async def text(self):
+            return ''
+
+    class Conn:
+        def post(self, path, data=None, headers=None):
+            sent['msg'] = (dict(headers), data)
+            return Resp()
+    cl = soapclient_async.SoapClientAsync('127.0.0.1:1', 1.0, mock.MagicMock(), None, mock.MagicMock(), mock.MagicMock(),
+                                         supported_encodings=sup, request_encodings=req_encs, chunk_size=chunk)
+    cl._http_connection = Conn()
+    msg = types.SimpleNamespace(p_msg=None, serialize=lambda request_manipulator=None, **k: xml)
+    r = WD.call(lambda: asyncio.run(cl.async_post_message_to('/p', msg)))
+    if r[0] == 'hang':
+        return 'HANG'
+    if 'msg' not in sent:
+        return 'err ' + (err_name(L, r[1]) if r[0] == 'exc' else 'nothing-sent')
+    return canon_msg(*sent['msg'])
+
+
 def canon_msg(h, wire):
     h = {k.lower(): v for k, v in h.items()}
     cl = h.get('content-length')
@@ -975,6 +1010,13 @@ def run_bodies(ctx, L, B):
         if got == 'HANG':
             ctx.fail('send_soap_request:hang', '', case)
         B.add(f'send {esl(sup)} {esl(req)} {chunk} {hx(xml)}', got, 'sendRequest == SoapClient._send_soap_request (toy codec)', case)
+        if xml[:40].lower().find(b'utf-8') >= 0 or rng.random() < 0.3:
+            xml_a = xml if b'utf-8' in xml[:100].lower() else b"<?xml version='1.0' encoding='UTF-8'?>" + xml
+            with toys_installed(L):
+                got_a = impl_send_async(L, sup, req, chunk, xml_a)
+            B.add(f'send {esl(sup)} {esl(req)} {chunk} {hx(xml_a)}', got_a, 'sendRequest == SoapClientAsync.async_post_message_to (toy codec)',
+                  {**case, 'async': True})
+            ctx.count('send-async')
         ctx.case({'k': 'send', **case}, nontrivial=len(xml) > 0)
         ctx.count('send:' + ('err' if sent is None else 'coded' if 'Content-Encoding' in sent[0] else 'identity'))
         if sent is not None:
